@@ -474,7 +474,7 @@ class AIPDDLConverter:
 
     def _add_object(self, obj: Constant):
         assert self._up_problem is not None
-        if obj.type_tags is None:
+        if not obj.type_tags:
             raise UPUnsupportedProblemTypeError(f"Object {obj.name} has no type tag")
         obj = Object(obj.name, assert_not_none_type(self._up_type(obj.type_tag)))
         self._objects[obj.name] = obj
